@@ -37,6 +37,13 @@ TEMPLATES = [
     "(f #* a #** b)", "(match v (| 1 2) 3)", "(match v [a #* r] r)", "(match v {\"a\" 1 #** r} r)",
     "(and a (do (f) b) (or c (do (g) d)))", "(if a (do (f) 1) (if b (do (g) 2) 3))", "(while c (f) (else (g)))",
     "(try (f) (except [E] (g)) (else (h)) (finally (k)))", "(setv [a b] (do (f) [1 2]))", "(+= a (do (f) 1))", "(not (do (f) a))",
+    # two statement-lifted values live at once (siblings of a display / operator / call / comparison), also inside a
+    # later clause of an else-if ladder: each needs a temporary of its own
+    "[(if p (do (f) 1) 2) (if q (do (g) 3) 4)]", "(cond a 1 b [(if p (do (f) 1) 2) (if q (do (g) 3) 4)] True 5)",
+    "(if a 1 (if b (+ (if p (do (f) 1) 2) (if q (do (g) 3) 4)) 5))", "(cond a 1 (< (if p (do (f) 1) 2) (if q (do (g) 3) 4)) 6 True 7)",
+    "(cond a 1 b 2 c (h (when p (f) 1) (when q (g) 2)))", "(setv r (cond a 1 b {(if p (do (f) 1) 2) (if q (do (g) 3) 4)}))",
+    "(if a 1 (if b (h (try (f) (except [E] 1)) (if q (do (g) 3) 4) (and p (do (g) 5))) 6))",
+    "(defn f [a b] (cond a 1 b #((if p (do (g) 1) 2) (if q (do (g) 3) 4))))",
 ]
 POOL = ["a", "b", "foo-bar", "is?", "x!", "λ", "_u", "long-name-1", "C", "E", "self", "k2", "*v*", "q->r", "t"]
 KEEP = {"True", "False", "None", "int", "os", "sys", "path", "print", "self"}
@@ -61,6 +68,30 @@ def names_in_ast(tree):
             out.add(n.rest)
         elif isinstance(n, (ast.Global, ast.Nonlocal)):
             out.update(n.names)
+    return out
+
+
+def sibling_temporaries(tree):
+    """lists of _hy_anon_ temporaries read by sibling operands of one display / call / operator / comparison"""
+    out = []
+    for n in ast.walk(tree):
+        if isinstance(n, (ast.List, ast.Tuple, ast.Set)):
+            sibs = n.elts
+        elif isinstance(n, ast.Dict):
+            sibs = [k for k in n.keys if k is not None] + n.values
+        elif isinstance(n, ast.Call):
+            sibs = n.args + [k.value for k in n.keywords]
+        elif isinstance(n, ast.BinOp):
+            sibs = [n.left, n.right]
+        elif isinstance(n, ast.Compare):
+            sibs = [n.left] + n.comparators
+        elif isinstance(n, ast.BoolOp):
+            sibs = n.values
+        else:
+            continue
+        ids = [x.id for x in sibs if isinstance(x, ast.Name) and isinstance(x.ctx, ast.Load) and x.id.startswith("_hy_anon_")]
+        if ids:
+            out.append(ids)
     return out
 
 
@@ -119,11 +150,100 @@ def template_oracle(chk, rng, rounds):
                 chk.fail("invented-name", {"program": src, "name": n}, "compiled code mentions %r" % n,
                          "only program names, hy, or _hy_-prefixed names",
                          "hy_compile of the program; ast.walk names")
+            # two sibling operands are two values that are live at once: they cannot be held by one temporary
+            for ids in sibling_temporaries(tree):
+                dup = sorted({i for i in ids if ids.count(i) > 1})
+                if dup:
+                    chk.fail("temporary-shared-by-live-values", {"program": src, "name": dup[0]},
+                             "sibling operands read the same temporary %s: %s" % (dup, ast.unparse(tree)[:300]),
+                             "distinct temporaries for values that are live at the same time",
+                             "hy_compile of the program; sibling Name nodes of displays/calls/operators")
             # temporaries: a Store name _hy_anon_N is assigned in one construct only -- checked via exact-name AST correspondence
             # on the modelled fragment; here: every _hy_ name is mangle-stable
             for n in names_in_ast(tree):
                 if n.startswith("_hy_") and hy.mangle(n) != n:
                     chk.fail("reserved-name-not-mangle-stable", {"program": src, "name": n}, hy.mangle(n), n, "hy.mangle(name)")
+
+
+# names of LOCAL macros (defmacro / require inside a function, class, comprehension): plain ones and ones that need
+# the hyx_ escape when mangled -- the hidden variable that holds a local macro must still be _hy_-prefixed
+MACRO_NAMES = ["ok?", "set!", "->x", "+", "*foo*", "<=>", "λ?", "a/b", "%", "plain-one", "m1", "_u", "is-not?", "x->y!"]
+LOCAL_MACRO_TEMPLATES = [
+    # (program, expected value of `result` or None when nothing is run)
+    ("(defn f [] (defmacro %(m)s [x] x) (%(m)s 1))", None),
+    ("(setv g (fn [] (defmacro %(m)s [x] x) (%(m)s 1)))", None),
+    ("(defclass K [] (defmacro %(m)s [x] x) (setv y (%(m)s 1)))", None),
+    ("(lfor x [1 2] (do (defmacro %(m)s [a] a) (%(m)s x)))", None),
+    ("(defn f [] (defn g [] (defmacro %(m)s [x] x) (%(m)s 3)) (g))\n(setv result (f))", "3"),
+    ("(defn f [v] (defmacro %(m)s [x] x) (defmacro other [] 1) (setv ms (local-macros))\n"
+     "  [(%(m)s v) (other) (sorted (.keys ms)) (is (get-macro %(m)s) (get ms (hy.mangle \"%(m)s\")))])\n(setv result (f 7))",
+     "[7, 1, %(keys)s, True]"),
+    ("(defn f [] (require hy.core.macros [when :as %(m)s]) (setv ms (local-macros)) [(%(m)s 1 2) (sorted (.keys ms))])\n"
+     "(setv result (f))", "[2, [%(key)r]]"),
+    ("(defclass K [] (defmacro %(m)s [x] x) (setv y (get-macro %(m)s)) (setv z (%(m)s 5)))\n(setv result [(callable K.y) K.z])",
+     "[True, 5]"),
+]
+
+
+def local_macro_oracle(chk, rng, thorough):
+    """local macros with names that need mangling: every name the compiler introduces for them is reserved, and the sites
+    that spell the hidden variable (defmacro / require, local-macros, get-macro) agree on it, so the program runs"""
+    import warnings
+    hy = vlib.use_repo_in_process()
+    from hy.compiler import hy_compile
+    from hy.reader import read_many
+    M = hy.models
+    for m in MACRO_NAMES:
+        for tpl, want in LOCAL_MACRO_TEMPLATES:
+            key = hy.mangle(m)
+            src = tpl % {"m": m, "key": key, "keys": sorted([key, "other"])}
+            want = None if want is None else want % {"key": key, "keys": sorted([key, "other"])}
+            forms = list(read_many(src))
+            own = set()
+
+            def syms(x):
+                if isinstance(x, M.Symbol):
+                    for part in str(x).split("."):
+                        if part:
+                            own.add(hy.mangle(part))
+                    own.add(hy.mangle(str(x)))
+                elif isinstance(x, M.Keyword) and x.name:
+                    own.add(hy.mangle(x.name))
+                elif isinstance(x, M.Sequence):
+                    for y in x:
+                        syms(y)
+            for f in forms:
+                syms(f)
+            mod = types.ModuleType("hyverif_c12m")
+            with warnings.catch_warnings():
+                warnings.simplefilter("ignore")
+                try:
+                    tree = hy_compile(read_many(src), mod)
+                except Exception as e:
+                    chk.count("local-macro:compile-error:" + type(e).__name__)
+                    chk.case("M:" + src, nontrivial=False)
+                    chk.fail("local-macro-does-not-compile", {"program": src}, type(e).__name__ + ": " + str(e)[:120], "compiles",
+                             "hy_compile(hy.read_many(src), module)")
+                    continue
+                names = names_in_ast(tree)
+                chk.count("local-macro:ok")
+                chk.case("M:" + src, nontrivial=True, sample={"program": src, "names": sorted(n for n in names if n.startswith("_hy"))[:6]}
+                         if (m == "ok?" and want is not None and "other" in src) else None)
+                for n in sorted(names):
+                    if n not in own and n != "hy" and not n.startswith("_hy_"):
+                        chk.fail("invented-name", {"program": src, "name": n}, "compiled code mentions %r" % n,
+                                 "only program names, hy, or _hy_-prefixed names", "hy_compile of the program; ast.walk names")
+                    if n.startswith("_hy_") and hy.mangle(n) != n:
+                        chk.fail("reserved-name-not-mangle-stable", {"program": src, "name": n}, hy.mangle(n), n, "hy.mangle(name)")
+                if want is not None:
+                    try:
+                        exec(compile(tree, "<hyverif_c12m>", "exec"), mod.__dict__)
+                        got = repr(mod.__dict__.get("result"))
+                    except Exception as e:
+                        got = "raises %s: %s" % (type(e).__name__, str(e)[:100])
+                    if got != want:
+                        chk.fail("local-macro-sites-disagree", {"program": src}, got, want,
+                                 "exec(compile(hy_compile(hy.read_many(src), module))); module.result")
 
 
 def let_oracle(chk, rng, n):
@@ -175,12 +295,21 @@ def run(chk):
     rng = chk.rng
     thorough = chk.tier == "thorough"
     progs = cc.make_progs(rng, 3000 if thorough else 300, ["setx", "exn", "raise", "while", "try"], 1, 4)
+    # two statement-lifted values live at once (arguments of a call with two arguments), mostly inside a later clause of an
+    # else-if ladder: a temporary shared by both shows as a wrong value (behaviour only, see compiler_common.to_coq)
+    full = ["setx", "exn", "raise", "while", "try", "log2", "focus"]
+    progs += cc.focused_progs(rng, 1200 if thorough else 150, full, ["ladder", "two_live", "ladder"])
     cc.annotate(progs)
     chk.rule = ("(a) programs over the modelled fragment: the real AST must equal the model's AST with temporaries compared by "
-                "exact name, and behave like the reference (user variables kept); (b) %d templates covering the core forms, "
+                "exact name, and behave like the reference (user variables kept); plus else-if ladders / calls whose two arguments "
+                "are statement-lifted ifs (both temporaries live at once; behaviour only); (b) local macros (defmacro / require in "
+                "a function, class, comprehension) with 14 names incl. ones needing the hyx_ escape: introduced names reserved, "
+                "local-macros / get-macro agree with the definition site; (c) %d templates covering the core forms, "
                 "with user symbols renamed to random names from a pool incl. names needing mangling: every name in the "
-                "compiled AST must be a program name, hy, or _hy_-prefixed; non-trivial = compiled template / program of size >= 4"
+                "compiled AST must be a program name, hy, or _hy_-prefixed, and sibling operands never read the same _hy_anon_ "
+                "temporary; non-trivial = compiled template / program of size >= 4"
                 % len(TEMPLATES))
     cc.differential(chk, progs)
     template_oracle(chk, rng, 40 if thorough else 6)
+    local_macro_oracle(chk, rng, thorough)
     let_oracle(chk, rng, 4000 if thorough else 400)
